@@ -58,3 +58,68 @@ Example zones_boundary :
   = [ZAccept VNone; ZReject; ZReject; ZReject]
   /\ zone DEntrez (s2l "0") = ZAccept VNone.
 Proof. vm_compute. repeat split; reflexivity. Qed.
+
+(* ---------- all documented domain kinds (proofs/ColumnFacts2.v, ShapeFacts2.v, DomainAll.v) ---------- *)
+From MafVerif Require Import proofs.ColumnFacts2 proofs.ShapeFacts2 proofs.DomainAll.
+
+(* C01_field_domain_partial without the restriction to the proved kinds: for
+   every pinned layout, EVERY column position (1731 of 1731) and every field
+   text without TAB/CR/LF, the class the regenerated definitions put there
+   (C3 over the regenerated class table) fits the documented domain
+   (`fits`), accepts the text with exactly the denoted value when it lies in
+   the documented domain (`zone2`: float, UUID, the 16 enumerations incl. the
+   capitalising ones and their null keys, ';'-lists, text-or-integer,
+   Canonical, Boolean, and the kinds of `zone`), and rejects it - never exposes
+   a value - when it lies outside.  float()/uuid.UUID() are the host oracle
+   `Or`; its law "reprs contain no TAB/CR/LF" is the hypothesis oracle_clean.
+   Unbounded in the text; finite only in the set of layouts (14, pinned). *)
+Theorem C01_field_domain_all :
+  forall (Or : oracles) ver annot cols i name d,
+    oracle_clean Or ->
+    In (ver, annot, cols) spec_layouts -> nth_error cols i = Some (name, d) ->
+    exists l cname cls r,
+      find_layout layouts_ok annot = Some l /\ nth_error (l_cols l) i = Some (cname, cls) /\
+      cname = s2l name /\ resolve class_table cls = Some r /\ fits d (r_self r) (r_elem r) = true /\
+      forall t, contains_sep t = false ->
+        (forall v, zone2 Or d t = ZAccept v -> field_outcome Or r t = Valid v) /\
+        (zone2 Or d t = ZReject -> field_outcome Or r t = Invalid).
+Proof. exact field_domain_as_documented_all. Qed.
+Print Assumptions C01_field_domain_all.
+
+(* the same for any resolved class (self, element class) fitting a descriptor *)
+Theorem C01_class_meets_domain_all :
+  forall (Or : oracles) d e el t,
+    oracle_clean Or -> fits d e el = true -> contains_sep t = false ->
+    (forall v, zone2 Or d t = ZAccept v -> fo2 Or e el t = Valid v) /\
+    (zone2 Or d t = ZReject -> fo2 Or e el t = Invalid).
+Proof. exact class_meets_domain_all. Qed.
+Print Assumptions C01_class_meets_domain_all.
+
+(* the pinned vocabularies are contained in the regenerated enum table (same
+   member name and value, same order): removing or renaming a documented term
+   breaks this obligation, adding one does not *)
+Theorem C01_vocabularies_contained :
+  forall e ms, In (e, ms) spec_enums -> Subseq ms (enum_members e).
+Proof. exact vocabularies_contained. Qed.
+Print Assumptions C01_vocabularies_contained.
+
+(* every documented term is a member of the regenerated class, its value text
+   denotes exactly that member, and its member name is accepted as well *)
+Theorem C01_documented_term_accepted :
+  forall e ms name value, In (e, ms) spec_enums -> In (name, value) ms ->
+    exists i, nth_error (enum_members e) i = Some (name, value) /\
+              zone_enum_lookup e (s2l value) = ZAccept (VEnum e i) /\
+              exists j, zone_enum_lookup e (s2l name) = ZAccept (VEnum e j).
+Proof. exact documented_term_accepted. Qed.
+Print Assumptions C01_documented_term_accepted.
+
+(* non-vacuity: all pinned positions are covered; zones of the new kinds on boundary texts *)
+Example covered_by_all_kinds : covered_positions_all = (1731%nat, 1731%nat).
+Proof. exact covered_all. Qed.
+Example zones_all_kinds :
+  zone2 ex_oracle DCanonical (s2l "yEs") = ZAccept (VBool true)
+  /\ zone2 ex_oracle NYN (s2l "nULL") = ZAccept (VEnum "NullableYesOrNoEnum" 0)
+  /\ map (zone2 ex_oracle (DSeq (DText true false))) [s2l "a;;b"; s2l ";"; s2l ""] = [ZReject; ZReject; ZAccept (VList [])]
+  /\ zone2 ex_oracle DTextOrInt (s2l "+7") = ZDontCare
+  /\ zone2 ex_oracle (DFloat true) (s2l "1e3") = ZAccept (VFloat (s2l "1000.0")).
+Proof. vm_compute. repeat split; reflexivity. Qed.
